@@ -445,7 +445,15 @@ funclit 1 in (dht *IpfsDHT) SearchValue(ctx context.Context, key string, opts ..
   props C06 C03
   requires cfgOK(dht)
   loop 0 invariant len(updatePeers) <= $key
-  ghost at append(updatePeers): assert(!has(peersWithBest, p))
+  # the correction goes to exactly the peers the lookup RETURNED (l.peers, the
+  # closest that are not unreachable) that did not supply the best value
+  ghostvar $pos map[int]int = any
+  loop 0 invariant [every-returned-peer-without-best-is-corrected] all(j, 0, $key, imp(!has(peersWithBest, l.peers[j]), 0 <= $pos[j] && $pos[j] < len(updatePeers) && updatePeers[$pos[j]] == l.peers[j])) && l != nil
+  ghost at append(updatePeers): assert(!has(peersWithBest, p) && p == l.peers[$key]); $pos[$key] = len(updatePeers) - 1
+  ghostvar $lr *lookupWithFollowupResult = nil
+  ghost at recv(lookupRes): $lr = $msg
+  loop 0 invariant $lr == l
+  ghost at before call(updatePeerValues): assert($lr != nil && all(j, 0, len($lr.peers), imp(!has(peersWithBest, $lr.peers[j]), 0 <= $pos[j] && $pos[j] < len(updatePeers) && updatePeers[$pos[j]] == $lr.peers[j])))
   ghost at before call(updatePeerValues): assert($arg1 == key && $arg2 == best && $arg3 == updatePeers && best != nil && !aborted)
   ghostvar $root int = any
   ensures [result-channel-closed] tagged("closed:out")
